@@ -75,9 +75,9 @@ def _expect(label, struct, want, shape):
         return "%s: .array is not a plain numpy array (%r)" % (label, type(struct.array))
     if a.shape != tuple(shape):
         return "%s: stored shape %r, expected %r" % (label, a.shape, tuple(shape))
-    if not np.array_equal(a, want):
+    if not np.array_equal(a, want, equal_nan=True):
         return "%s: values %r, expected %r" % (label, a.tolist(), np.asarray(want).tolist())
-    if not np.array_equal(np.asarray(struct), want):
+    if not np.array_equal(np.asarray(struct), want, equal_nan=True):
         return "%s: np.asarray(structure) differs from structure.array" % label
     return None
 
@@ -273,6 +273,18 @@ def forms_after_arithmetic_and_edits(mask, values, yx, seed):
         out = np.zeros(mask.shape + tuple(tail))
         out[~mask] = slim
         return out
+    if seed % 3 == 0:
+        # "lists exactly the values": a bad pixel flagged NaN (and an infinite one) is a value like any other -- it is at its own pixel in
+        # both forms, it is not turned into a number
+        bad = values[~mask].copy()
+        bad[0] = np.nan
+        bad[-1] = np.inf if len(bad) > 1 else np.nan
+        for sn in (False, True):
+            an = aa.Array2D(values=bad.copy(), mask=mk, store_native=sn)
+            msg = _expect("Array2D(slim values with a NaN / inf entry, store_native=%s).native" % sn, an.native, nat(bad), mask.shape) or \
+                _expect("Array2D(slim values with a NaN / inf entry, store_native=%s).slim" % sn, an.slim, bad, bad.shape)
+            if msg:
+                return msg
 
     for store_native in (False, True):
         # ---- Array2D: arithmetic keeps "masked positions are zero"
